@@ -2,7 +2,7 @@ import Model.Ident.Quote
 /-!
 # Every DDL construct Alembic compiles itself (`alembic/ddl/{base,mysql,mssql,oracle,postgresql,sqlite}.py`)
 as a function to the statement text, mirroring the `@compiles` visitors *as they are*
-(including Oracle's raw `COMMENT ON COLUMN` and MSSQL's unescaped `'…'` literals).
+(MSSQL: names embedded in `'…'` literals go through `_quote_in_literal`).
 Type, default, comment-literal and column-specification texts are rendered by SQLAlchemy and
 are opaque parameters here.
 -/
@@ -47,6 +47,9 @@ inductive Construct
 section
 variable (k : Kind) (r : Str → Bool)
 
+/-- `mssql._quote_in_literal`: `str(value).replace("'", "''")` -/
+def quoteInLiteral (s : Str) : Str := escapeClose '\'' s
+
 /-- `base.alter_table` -/
 def alterTable (g : Tgt) : Str := "ALTER TABLE ".toList ++ formatTableName k r g.t g.schema
 
@@ -72,18 +75,19 @@ def mysqlColspec (cs : ColSpec) : Str :=
 def mssqlDropTail (pfx : String) (g : Tgt) (col : Str) : Str :=
   ("where " ++ pfx ++ "parent_object_id = object_id('").toList ++
   (match schemaGiven g.schema with
-   | some s => s.s ++ ['.']
+   | some s => quoteInLiteral s.s ++ ['.']
    | none => []) ++
-  g.t.s ++ "')\nand col_name(".toList ++ pfx.toList ++ "parent_object_id, ".toList ++ pfx.toList ++
-  "parent_column_id) = '".toList ++ col ++
-  "'\nexec('alter table ".toList ++ formatTableName k r g.t g.schema ++ " drop constraint ' + @const_name)".toList
+  quoteInLiteral g.t.s ++ "')\nand col_name(".toList ++ pfx.toList ++ "parent_object_id, ".toList ++ pfx.toList ++
+  "parent_column_id) = '".toList ++ quoteInLiteral col ++
+  "'\nexec('alter table ".toList ++ quoteInLiteral (formatTableName k r g.t g.schema) ++
+  " drop constraint ' + @const_name)".toList
 
 /-- The text returned by the `@compiles` visitor selected for dialect `k`
     (`none`: the construct has no visitor on that dialect / the visitor raises). -/
 def render : Construct → Option Str
   | .renameTable g new =>
     match k with
-    | .mssql => some ("EXEC sp_rename '".toList ++ formatTableName k r g.t g.schema ++ "', ".toList ++
+    | .mssql => some ("EXEC sp_rename '".toList ++ quoteInLiteral (formatTableName k r g.t g.schema) ++ "', ".toList ++
                       formatTableName k r new none)
     | .mysql | .mariadb =>   -- base visitor: the new name is schema-qualified as well
       some (alterTable k r g ++ " RENAME TO ".toList ++ formatTableName k r new g.schema)
@@ -115,8 +119,9 @@ def render : Construct → Option Str
   | .columnName g col new =>
     match k with
     | .mysql | .mariadb => none
-    | .mssql => some ("EXEC sp_rename '".toList ++ formatTableName k r g.t g.schema ++ '.' ::
-                      formatColumnName k r col ++ "', ".toList ++ formatColumnName k r new ++ ", 'COLUMN'".toList)
+    | .mssql => some ("EXEC sp_rename '".toList ++ quoteInLiteral (formatTableName k r g.t g.schema) ++ '.' ::
+                      quoteInLiteral (formatColumnName k r col) ++ "', ".toList ++ formatColumnName k r new ++
+                      ", 'COLUMN'".toList)
     | .postgresql => some (alterTable k r g ++ " RENAME ".toList ++ formatColumnName k r col ++
                            " TO ".toList ++ formatColumnName k r new)
     | _ => some (alterTable k r g ++ " RENAME COLUMN ".toList ++ formatColumnName k r col ++
@@ -141,8 +146,8 @@ def render : Construct → Option Str
     | .postgresql =>
       some ("COMMENT ON COLUMN ".toList ++ formatTableName k r g.t g.schema ++ '.' :: formatColumnName k r col ++
             " IS ".toList ++ (match comment with | some c => c | none => "NULL".toList))
-    | .oracle =>   -- raw names, schema ignored (as the code is)
-      some ("COMMENT ON COLUMN ".toList ++ g.t.s ++ '.' :: col.s ++
+    | .oracle =>   -- the comment is always rendered (`''` for None)
+      some ("COMMENT ON COLUMN ".toList ++ formatTableName k r g.t g.schema ++ '.' :: formatColumnName k r col ++
             " IS ".toList ++ (match comment with | some c => c | none => "''".toList))
     | _ => none
   | .identity g col tail =>
